@@ -251,6 +251,52 @@ def run(tier, seed, replay=None):
                               f"from {str(res[0])[:150]} to {str(res[1])[:150]}")
             elif same and res[0]:
                 chk.nontrivial.add(("hdr", i))
+        # ---- the edit made in place, the rescan assisted by the previous scan (what `scan` does with its cache): blank and
+        #      white-space lines inserted or removed must shift the functions exactly as a fresh analysis of the new text says
+        #      (seeded change C04-10: a checksum that ignores white-space lines keeps the stale entry)
+        from codelimit.common.report.Report import Report
+        for i in range(16 if tier == "quick" else 300):
+            lang = LC.LANGS[i % len(LC.LANGS)]
+            ext = LC.EXT[lang]
+            rng = random.Random(seed * 11 + i)
+            text = progen.generate(seed * 59 + i, lang, {"long_bodies": False})["text"]
+            lines = text.split("\n")
+            mod = list(lines)
+            for _ in range(rng.choice([1, 2, 3])):
+                k = rng.randrange(1, len(mod) + 1)          # never before the first line; whatever the edit does to the tokens,
+                mod[k:k] = [rng.choice(["", "", "    ", "\t", "  \t "])] * rng.choice([1, 2, 4])     # cached and fresh must agree
+            if mod == lines:
+                continue
+            d = os.path.join(tmp, f"edit{i}")
+            os.makedirs(d)
+            fp = os.path.join(d, f"m.{ext}")
+
+            def spans(cb):
+                e = cb.files.get(f"m.{ext}")
+                return None if e is None else [(m.unit_name, m.start.line, m.end.line, m.value) for m in e.measurements()]
+            try:
+                res = []
+                for first, second in ((lines, mod), (mod, lines)):          # insertion, then the same edit as a removal
+                    open(fp, "w").write("\n".join(first))
+                    cb0 = Scanner.scan_path(Path(d))
+                    open(fp, "w").write("\n".join(second))
+                    cached = spans(Scanner.scan_path(Path(d), Report(cb0)))
+                    fresh = spans(Scanner.scan_path(Path(d)))
+                    res.append((cached, fresh))
+            except Exception as ex:
+                res = [(f"{type(ex).__name__}: {ex}", None)]
+            shutil.rmtree(d, ignore_errors=True)
+            chk.evaluations += 1
+            chk.count("file edited in place (white-space lines), rescanned with the previous scan as cache")
+            for cached, fresh in res:
+                if cached != fresh:
+                    chk.violation({"language": lang, "file": f"m.{ext}", "original": text, "modified": "\n".join(mod)},
+                                  f"m.{ext} edited in place by white-space lines and rescanned with the previous scan as cache: "
+                                  f"functions (name, first line, last line, length) {str(cached)[:160]}, a fresh analysis gives {str(fresh)[:160]}")
+                    break
+            else:
+                if res[0][1]:
+                    chk.nontrivial.add(("edit", i))
     finally:
         shutil.rmtree(tmp, ignore_errors=True)
     chk.samples = [c for _, _, c in model_cases[:4]]
